@@ -260,7 +260,9 @@ Inductive op :=
 | OAddVirtualPort (id : string) | OSetAttr (id : string) | OSetExpr (id : string) | ORemovePort (id : string)
 | OWriteValue (id : string) | OSetDeviceAttr | OSetPassword
 | OAddSlave (name : string) | OEditSlave (name : string) | ORemoveSlave (name : string)
-| OSaveAll | ORestart.
+| OSaveAll
+| OSaveFailed (id : string)      (* a round of the save loop in which storing port id raises: the mark stays, the next round retries *)
+| ORestart.
 
 Definition mem (x : string) (l : list string) : bool := existsb (String.eqb x) l.
 Definition remove_id (x : string) (l : list string) : list string := filter (fun y => negb (y =? x)) l.
@@ -310,6 +312,7 @@ Definition step (h : hub) (o : op) : hub :=
       {| h_static := h_static h; h_live := h_live h; h_vports := h_vports h; h_slaves := h_slaves h;
          st_ports := fold_left (fun acc id => if mem id (h_live h) then add_id id acc else acc) (h_pending h) (st_ports h);
          st_vports := st_vports h; st_slaves := st_slaves h; h_pending := [] |}
+  | OSaveFailed _ => h
   | ORestart => restart h
   end.
 
